@@ -87,6 +87,11 @@ def run():
     # the table represents the whole Euclidean normalizer (proper part for Sohncke groups): otherwise two descriptions of one crystal that
     # differ by an unlisted normalizer are ranked over different candidate sets
     rep.obligations.extend(tabvc.run_family(tabvc.normalizer_complete_obligation, list(range(1, 231))))
+    # the atoms are moved by the same table entry whose letter permutation is applied (positions = A.x + t of that entry): without it the
+    # conventional cell of a parameter-free structure would depend on the origin spglib happened to pick
+    from props import C05 as _C05
+    c5 = tabvc.run_family(_C05._group_obligations, list(range(1, 231)))
+    rep.obligations.extend(o for o in c5 if o.id.split("[")[0] in ("apply.affine", "apply.letters", "apply.member"))
     sections_parallel(rep, [("id", _id), ("getters", _getters), ("maps", _maps)])
     rep.unproved_conjuncts.append("C06 last clause (identical conventional cell for parameter-free structures) depends on which of several equally ranked transformations is first: not covered")
     # spglib is asked about the analysed structure with the analyzer's tolerance; the simple getters are dataset look-ups (shared section)
@@ -228,6 +233,43 @@ def replay(ob):
                         return {"reproduced": True, "failing_inputs": fails}
             except Exception as e:  # noqa
                 fails.append({"sg": sg, "observed": "%s: %s" % (type(e).__name__, str(e)[:200])})
+    # parameter-free structures: the conventional cell itself (species and scaled positions) is the same for every presentation
+    try:
+        from ase.build import make_supercell
+        INFOp, WYp, NZp = tabvc.load_tables()
+
+        def cellkey(a):
+            conv = a.get_conventional_system()
+            return sorted((int(z),) + tuple(np.round(np.round(p % 1.0, 4) % 1.0, 4)) for z, p in zip(conv.get_atomic_numbers(), conv.get_scaled_positions()))
+
+        rng2 = np.random.default_rng(7)
+        for sgp in (225, 221, 229, 227, 216, 194, 139, 62):
+            Lp = _sym.letters_of(sgp)
+            fixed = [l for l in Lp if not WYp[sgp][l]["variables"]][:2]
+            if not fixed:
+                continue
+            occp = [(fixed[0], 29, None)] + ([(fixed[1], 8, None)] if len(fixed) > 1 else [])
+            at = tr.probe(sgp, occp)
+            a0 = tr.analyze(at)
+            if a0.get_has_free_wyckoff_parameters():
+                continue
+            ref = cellkey(a0)
+            for trial in range(4):
+                v = at.copy()
+                if trial % 2 == 1:
+                    v = make_supercell(v, [[0, 1, 0], [0, 0, 1], [2, 0, 0]])
+                v.translate(rng2.uniform(-3, 3, 3))
+                v.wrap()
+                v = v[list(rng2.permutation(len(v)))]
+                if trial >= 2:
+                    v.rotate(37.0, (1, 2, 3), rotate_cell=True)
+                a = tr.analyze(v)
+                if int(a.get_space_group_number()) == int(a0.get_space_group_number()) and cellkey(a) != ref:
+                    fails.append({"sg": sgp, "occupied": [o[0] for o in occp], "presentation": "translated%s%s, atoms permuted" % (", supercell [[0,1,0],[0,0,1],[2,0,0]]" if trial % 2 else "", ", rotated" if trial >= 2 else ""),
+                                  "observed": "conventional cell of a parameter-free structure differs: %s vs %s" % (str(cellkey(a))[:160], str(ref)[:160])})
+                    return {"reproduced": True, "failing_inputs": fails}
+    except Exception as e:  # noqa
+        fails.append({"observed": "parameter-free family: %s: %s" % (type(e).__name__, str(e)[:200])})
     # crystals with a single atom per cell, origin moved by half a lattice vector in one, two and three directions
     for sg1 in (221, 123, 47, 191):
         try:
